@@ -368,7 +368,7 @@ def make_factory(t):
     arr = to_array(t["factory"]["of"])
     mode = t["factory"].get("mode", "ok")
 
-    def factory(shape):
+    def produce(shape):
         if mode == "raise":
             raise RuntimeError("factory failed (injected)")
         if mode == "wrongshape":
@@ -376,6 +376,17 @@ def make_factory(t):
         if mode == "wrongtype":
             return arr.tolist()
         return arr.copy()
+
+    sig = t["factory"].get("sig", "plain")
+    if sig == "varkw":
+        def factory(shape, **kw):
+            return produce(shape)
+    elif sig == "name":
+        def factory(shape, name=None):
+            return produce(shape)
+    else:
+        def factory(shape):
+            return produce(shape)
 
     return factory
 
